@@ -8,6 +8,7 @@ From RRSS Require Import Proofs.LexNumbers.
 From RRSS Require Import Proofs.ParseLayout.
 From RRSS Require Import Proofs.LexKeywords.
 From RRSS Require Import Proofs.LexPayloads.
+From RRSS Require Import Proofs.ParseFacts.
 Import ListNotations.
 Open Scope N_scope.
 
@@ -144,6 +145,13 @@ Proof. exact tokenize_word_kind. Qed.
 Theorem C02_literals_denote_their_written_value :
   forall prof src pts, lex prof src = Ok pts -> Forall (fun pt => payload_ok (pt_tok pt)) pts.
 Proof. exact lex_payloads. Qed.
+
+(** structural facts of every accepted program, read off the grammar: `build`/`knock` count at least one `up`/`down`,
+    functions have at least one parameter and calls at least one argument, poetic number literals at least one word,
+    non-empty blocks at least one statement *)
+Theorem C02_accepted_programs_wellformed :
+  forall prof src p, parse prof src = ParseOk p -> Forall ok_block p.
+Proof. exact parse_wellformed. Qed.
 
 Print Assumptions C02_expression_in_grammar.
 Print Assumptions C02_program_in_grammar.
